@@ -174,6 +174,40 @@ def dependent_rows(ctx, functionals, prefix):
     return n
 
 
+def duplicate_rows(ctx, functionals, prefix):
+    """the SAME tensor object in two parameter slots (p, p, q): its gradient is the sum over the slots, to first and second order"""
+    n = 0
+    with warnings.catch_warnings():
+        warnings.simplefilter("ignore")
+        for fname in functionals:
+            for cg in (False, True):
+                n += 1
+                ctx.case(key=("duplicated-param", fname, cg))
+                why = None
+                try:
+                    p = torch.tensor(0.7, dtype=DT, requires_grad=True)
+                    r = torch.tensor(-0.4, dtype=DT, requires_grad=True)
+                    out = _run_params(fname, (p, p, r))
+                    w = torch.cos(torch.arange(out.numel(), dtype=DT) + 0.3).reshape(out.shape)
+                    gA = torch.autograd.grad((out * w).sum(), [p, r], create_graph=cg)
+                    q = [torch.tensor(v, dtype=DT, requires_grad=True) for v in (0.7, 0.7, -0.4)]
+                    outB = _run_params(fname, tuple(q))
+                    gB = torch.autograd.grad((outB * w).sum(), q, create_graph=True)
+                    if not (torch.allclose(gA[0], (gB[0] + gB[1]).detach(), atol=1e-8, rtol=1e-7) and torch.allclose(gA[1], gB[2].detach(), atol=1e-8, rtol=1e-7)):
+                        why = "gradients %s, sum over the two slots / third slot on independent tensors %s" % ([float(x) for x in gA], [float(gB[0] + gB[1]), float(gB[2])])
+                    elif cg:
+                        hA = torch.autograd.grad(gA[0] ** 2 + gA[1] ** 2, [p, r])
+                        hB = torch.autograd.grad((gB[0] + gB[1]) ** 2 + gB[2] ** 2, q)
+                        if not (torch.allclose(hA[0], hB[0] + hB[1], atol=1e-7, rtol=1e-6) and torch.allclose(hA[1], hB[2], atol=1e-7, rtol=1e-6)):
+                            why = "second-order gradients %s, reference %s" % ([float(x) for x in hA], [float(hB[0] + hB[1]), float(hB[2])])
+                except Exception as e:
+                    why = "raised %s: %s" % (type(e).__name__, str(e)[:140])
+                if why:
+                    ctx.violation("%s/duplicated-param/%s" % (prefix, fname), "%s with the same tensor in two parameter slots, backward %s graph recording: %s"
+                                  % (fname, "with" if cg else "without", why), {"f": fname, "create_graph": cg})
+    return n
+
+
 def shared_leaf_rows(ctx, functionals, prefix):
     """limits / time grid / initial state computed from the same leaf as the parameter: total derivative against closed forms"""
     n = 0
@@ -260,4 +294,5 @@ def replay(ctx, functionals, prefix):
             if why:
                 ctx.violation("%s/gradpattern/%s" % (prefix, fname), "%s with extra parameters of kinds %s (tg: tensor requiring grad, tu: unused tensor requiring grad, tn: tensor without grad, num: number): %s"
                               % (fname, ks, why), {"f": fname, "ks": ks})
-    return n + dependent_rows(ctx, functionals, prefix) + precision_rows(ctx, functionals, prefix) + shared_leaf_rows(ctx, functionals, prefix)
+    return n + dependent_rows(ctx, functionals, prefix) + precision_rows(ctx, functionals, prefix) + shared_leaf_rows(ctx, functionals, prefix) \
+        + duplicate_rows(ctx, functionals, prefix)
